@@ -418,6 +418,27 @@ Qed.
 Definition iop_bytes (o : iop) : list Z := match o with IOp o' => pop_bytes o' | _ => [] end.
 Definition ifed (ops : list iop) : list Z := flat_map iop_bytes ops.
 
+(* one next() on some iterator, followed by a run for which conservation is known *)
+Lemma i_next_case (r : list iop) (s : istate) (k : nat) :
+  (forall s', st_wf (p_tok (i_p s')) -> Forall byte (ifed r) ->
+     exists ms, sequence (map dec (snd (feed (p_tok (i_p s')) (ifed r)))) = Ok ms /\
+       p_q (i_p s') ++ ms = retrieved (snd (i_run s' r)) ++ p_q (i_p (fst (i_run s' r)))) ->
+  st_wf (p_tok (i_p s)) -> Forall byte (ifed r) ->
+  exists ms, sequence (map dec (snd (feed (p_tok (i_p s)) (ifed r)))) = Ok ms /\
+    p_q (i_p s) ++ ms = retrieved (snd (let '(s1, ob) := i_next s k in let '(s2, obs) := i_run s1 r in (s2, ob :: obs))) ++
+                        p_q (i_p (fst (let '(s1, ob) := i_next s k in let '(s2, obs) := i_run s1 r in (s2, ob :: obs)))).
+Proof.
+  intros IH Hs Hbr. unfold i_next.
+  destruct (nth_error (i_it s) k) as [[|]|] eqn:Ei.
+  - destruct (p_q (i_p s)) as [|m q] eqn:Eq.
+    + specialize (IH {| i_p := i_p s; i_it := set_flag (i_it s) k false |} Hs Hbr). cbn [i_p] in IH. destruct IH as (ms & Hm & Hq).
+      destruct (i_run _ r) as [s2 obs2]. cbn [fst snd] in *. exists ms. rewrite Eq in Hq. auto.
+    + specialize (IH {| i_p := {| p_tok := p_tok (i_p s); p_q := q |}; i_it := i_it s |} Hs Hbr). cbn [i_p p_tok p_q] in IH. destruct IH as (ms & Hm & Hq).
+      destruct (i_run _ r) as [s2 obs2]. cbn [fst snd] in *. exists ms. split; [exact Hm|]. cbn [retrieved flat_map obs_msgs app]. fold (retrieved obs2). cbn [app]. now rewrite Hq.
+  - specialize (IH s Hs Hbr). destruct IH as (ms & Hm & Hq). destruct (i_run s r) as [s2 obs2]. cbn [fst snd] in *. exists ms. auto.
+  - specialize (IH s Hs Hbr). destruct IH as (ms & Hm & Hq). destruct (i_run s r) as [s2 obs2]. cbn [fst snd] in *. exists ms. auto.
+Qed.
+
 Theorem i_conservation : forall ops s, st_wf (p_tok (i_p s)) -> Forall byte (ifed ops) ->
   exists ms, sequence (map dec (snd (feed (p_tok (i_p s)) (ifed ops)))) = Ok ms /\
     p_q (i_p s) ++ ms = retrieved (snd (i_run s ops)) ++ p_q (i_p (fst (i_run s ops))).
@@ -425,7 +446,7 @@ Proof.
   induction ops as [|o r IH]; intros s Hs Hb.
   - exists []. cbn. now rewrite app_nil_r.
   - unfold ifed in Hb. cbn [flat_map] in Hb. apply Forall_app in Hb as [Hb1 Hbr]. fold (ifed r) in Hbr.
-    destruct o as [o'| |].
+    destruct o as [o'| | |k].
     + (* an ordinary operation *)
       assert (Hb1' : Forall byte (fed [o'])) by (unfold fed; cbn [flat_map]; rewrite app_nil_r; exact Hb1).
       destruct (run_conservation [o'] (i_p s) Hs Hb1') as (ms1 & Hm1 & Ht1 & Hq1).
@@ -442,22 +463,16 @@ Proof.
       exists (ms1 ++ ms2). rewrite map_app. split; [now apply sequence_app|].
       cbn [retrieved flat_map]. fold (retrieved obs2). rewrite app_assoc, Hq1, <- app_assoc, Hq2. now rewrite app_assoc.
     + (* a new iterator *)
-      specialize (IH {| i_p := i_p s; i_it := Some true |} Hs Hbr). cbn [i_p] in IH. destruct IH as (ms & Hm & Hq).
+      specialize (IH {| i_p := i_p s; i_it := i_it s ++ [true] |} Hs Hbr). cbn [i_p] in IH. destruct IH as (ms & Hm & Hq).
       cbn [i_run i_step]. destruct (i_run _ r) as [s2 obs2]. cbn [fst snd] in *. exists ms. unfold ifed. cbn [flat_map iop_bytes app]. fold (ifed r). auto.
-    + (* next(it) *)
-      cbn [i_run i_step]. unfold ifed. cbn [flat_map iop_bytes app]. fold (ifed r).
-      destruct (i_it s) as [[|]|] eqn:Ei.
-      * destruct (p_q (i_p s)) as [|m q] eqn:Eq.
-        -- specialize (IH {| i_p := i_p s; i_it := Some false |} Hs Hbr). cbn [i_p] in IH. destruct IH as (ms & Hm & Hq).
-           destruct (i_run _ r) as [s2 obs2]. cbn [fst snd] in *. exists ms. rewrite Eq in Hq. auto.
-        -- specialize (IH {| i_p := {| p_tok := p_tok (i_p s); p_q := q |}; i_it := Some true |} Hs Hbr). cbn [i_p p_tok p_q] in IH. destruct IH as (ms & Hm & Hq).
-           destruct (i_run _ r) as [s2 obs2]. cbn [fst snd] in *. exists ms. split; [exact Hm|]. cbn [retrieved flat_map obs_msgs app]. fold (retrieved obs2). cbn [app]. now rewrite Hq.
-      * specialize (IH s Hs Hbr). destruct IH as (ms & Hm & Hq). destruct (i_run s r) as [s2 obs2]. cbn [fst snd] in *. exists ms. auto.
-      * specialize (IH s Hs Hbr). destruct IH as (ms & Hm & Hq). destruct (i_run s r) as [s2 obs2]. cbn [fst snd] in *. exists ms. auto.
+    + (* next(it) on the newest iterator *)
+      cbn [i_run i_step]. unfold ifed. cbn [flat_map iop_bytes app]. fold (ifed r). apply i_next_case; assumption.
+    + (* next(it) on the k-th iterator *)
+      cbn [i_run i_step]. unfold ifed. cbn [flat_map iop_bytes app]. fold (ifed r). apply i_next_case; assumption.
 Qed.
 
-(* with one iterator kept alive across feeds, get_message calls and other iterations, in ANY history: what was retrieved plus what is
-   still queued is exactly parse_all of everything fed - the live iterator neither loses, duplicates nor reorders anything *)
+(* with ANY number of iterators kept alive across feeds, get_message calls and other iterations, advanced in any order, in ANY history: what was
+   retrieved plus what is still queued is exactly parse_all of everything fed - live iterators neither lose, duplicate nor reorder anything *)
 Theorem live_iterator_fifo ops : Forall byte (ifed ops) ->
   exists ms, parse_all (ifed ops) = Ok ms /\ ms = retrieved (snd (i_run i_init ops)) ++ p_q (i_p (fst (i_run i_init ops))).
 Proof.
